@@ -965,6 +965,7 @@ struct LoopConfig
     bool calo_tee{false};
     bool action_diagnostic{false};
     bool step_diagnostic{false};
+    unsigned step_diagnostic_max_bin{64};  // StepDiagnostic max_step_bin (bins = this + 2)
     bool with_recorder{true};
     StepInterface::Filters recorder_filters{};
     StepSelection recorder_selection{StepSelection::all()};
@@ -1316,7 +1317,7 @@ inline std::unique_ptr<LoopProblem> make_loop_problem(LoopConfig const& cfg)
             if (cfg.action_diagnostic)
                 P->action_diag = ActionDiagnostic::make_and_insert(*core);
             if (cfg.step_diagnostic)
-                P->step_diag = StepDiagnostic::make_and_insert(*core, 64);
+                P->step_diag = StepDiagnostic::make_and_insert(*core, cfg.step_diagnostic_max_bin);
         }
         for (auto aid : range(ActionId{action_reg->num_actions()}))
         {
